@@ -436,7 +436,7 @@ CHECKS["C04"] = num_check("C04", [],
     "the per-order bound; errors not growing with the order; results equal to 2^16 eps across groupings/executors; potential linear in "
     "the charges (q = q1 + q2). evaluations = FMM executions; non-trivial = height >= 4 (M2M/L2L used).")
 CHECKS["C05"] = num_check("C05", ["-lfftw3", "-lfftw3f"],
-    "uniform kernel: every (order in {4,6}; thorough adds 3,5,7,8) x height 1..5 (6) x 3 boxes x 5 particle sets x double (thorough: float) "
+    "uniform kernel: every (order in {4,5,6}; thorough adds 3,7,8) x height 1..5 (6) x 3 boxes x 5 particle sets x double (thorough: float) "
     "x grouping/executor matrix (block size 1 delivers the children of a parent in several batches, single group in one); oracle as C04: "
     "finite, error below the per-order bound, error shrinking with the order, equal to rounding across groupings/executors/batches, "
     "linear in the charges.")
